@@ -268,12 +268,15 @@ impl<R: Reader> RangeLists<R> {
         let format = unit_encoding.format;
         let input = &mut self.debug_rnglists.section.clone();
         input.skip(base.0)?;
-        input.skip(R::Offset::from_u64(
-            index.0.into_u64() * u64::from(format.word_size()),
-        )?)?;
+        let index_offset = index
+            .0
+            .into_u64()
+            .checked_mul(u64::from(format.word_size()))
+            .ok_or(Error::UnsupportedOffset)?;
+        input.skip(R::Offset::from_u64(index_offset)?)?;
         input
             .read_offset(format)
-            .map(|x| RangeListsOffset(base.0 + x))
+            .map(|x| RangeListsOffset(base.0.wrapping_add(x)))
     }
 
     /// Call `Reader::lookup_offset_id` for each section, and return the first match.
